@@ -109,3 +109,44 @@ def _typed_out(i: int = 0, s: str = "x", u=None, b: bool = True) -> tuple[int, s
 @as_function_node("oi", "os", "ob", validate_output_labels=False)
 def TypedOut(i: int = 0, s: str = "x", u=None, b: bool = True) -> tuple[int, str, bool]:
     return i, s, b
+
+
+# ---- a MACRO as the hosting composite: the whole random graph is built by a graph creator with three arguments
+# ua, ub, uc; a slot of a child takes a sibling's output or one of the arguments. An argument used by two or more
+# connections keeps its interface node (a real child of the macro, executed like any other); an argument used once is
+# value-linked straight to the consuming input; the macro's outputs are the outputs of the children in `outs`.
+
+_HOST_COUNTER = [0]
+HOST_ARGS = ("ua", "ub", "uc")
+
+
+def host_macro(case, label="w", **kw):
+    from pyiron_workflow import as_macro_node
+
+    order, slots, argslots, outs = case["order"], case["slots"], case["argslots"], case["outs"]
+    macro = set(case.get("macro", []))
+    made: dict = {}
+
+    def creator(self, ua="d", ub="d", uc="d"):
+        ui = [ua, ub, uc]
+        ns = {}
+        for i in order:
+            n = macro_node(i, label=f"n{i}") if i in macro else term_node(i, label=f"n{i}")
+            self.add_child(n)
+            ns[i] = n
+        for i in order:
+            for s, slot in enumerate("abc"):
+                k = argslots[str(i)][s]
+                if k is not None:
+                    ns[i].inputs[slot].connect(ui[k].channel)
+                for j in slots[str(i)][s]:  # connection creation order; the newest ends up first
+                    ns[i].inputs[slot].connect(ns[j].outputs.o)
+        made.update(ns)
+        return tuple(ns[i].outputs.o for i in outs)
+
+    _HOST_COUNTER[0] += 1
+    creator.__name__ = creator.__qualname__ = f"H{_HOST_COUNTER[0]}"
+    creator.__module__ = __name__
+    cls = as_macro_node(*[f"o{i}" for i in outs], validate_output_labels=False)(creator)
+    m = cls(label=label, **kw)
+    return m, made
